@@ -163,6 +163,26 @@ type Result struct {
 // ErrInjected is the failure injected into sources and destinations.
 var ErrInjected = errors.New("injected I/O failure")
 
+// WriteScribbling hands pt to w in pieces of the given size through ONE buffer that is overwritten as soon as each
+// Write has returned (what io.CopyBuffer and every read loop do; an io.Writer must not retain p).
+func WriteScribbling(w io.Writer, pt []byte, piece int) error {
+	buf := make([]byte, piece)
+	for off := 0; off < len(pt); off += piece {
+		n := copy(buf, pt[off:])
+		k, err := w.Write(buf[:n])
+		for i := range buf {
+			buf[i] = 0xA5
+		}
+		if err != nil {
+			return err
+		}
+		if k != n {
+			return io.ErrShortWrite
+		}
+	}
+	return nil
+}
+
 // Drain reads r to its terminal error using the given read policy, then keeps calling Read.
 func Drain(r io.Reader, policy string) (res Result) {
 	defer func() {
